@@ -75,7 +75,9 @@ func (d *Desc) hashable(v Val) bool {
 	switch n.Kind {
 	case "list", "dict", "set":
 		return false
-	case "tuple", "struct", "ssum":
+	case "ssum":
+		return false // equal to any struct with the same fields: never used as a key
+	case "tuple", "struct":
 		for _, e := range n.Init {
 			if !d.hashable(e) {
 				return false
@@ -105,6 +107,130 @@ func hasKey(kind string, elems []Val, k Val) bool {
 		}
 	}
 	return false
+}
+
+// add appends a node created inside build() with the given initial contents.
+func (d *Desc) add(nd *Node) int {
+	nd.ID = len(d.Nodes)
+	nd.Exists = true
+	if nd.Kind == "struct" {
+		nd.Fields = nil
+		for j := range nd.Init {
+			nd.Fields = append(nd.Fields, fmt.Sprintf("f%02d_%d", nd.ID, j))
+		}
+	}
+	if nd.Kind == "ssum" {
+		m := map[string]Val{}
+		for _, o := range []int{nd.A, nd.B} {
+			on := d.Nodes[o]
+			for j, name := range on.Fields {
+				m[name] = on.Init[j]
+			}
+		}
+		nd.Fields, nd.Init = nil, nil
+		for name := range m {
+			nd.Fields = append(nd.Fields, name)
+		}
+		sort.Strings(nd.Fields)
+		for _, name := range nd.Fields {
+			nd.Init = append(nd.Init, m[name])
+		}
+	}
+	nd.Elems = append([]Val{}, nd.Init...)
+	d.Nodes = append(d.Nodes, nd)
+	d.Stmts = append(d.Stmts, Stmt{New: nd.ID})
+	return nd.ID
+}
+
+// motif appends a fresh list L that is reachable from a new global ONLY through
+// one particular kind of edge (or a chain of them), so that every edge kind
+// Freeze has to follow is exercised on its own; and a few corner values
+// (containers that were never written).  Returns the id to bind to a global.
+func (d *Desc) motif(r *hx.Rand) int {
+	tag := func() Val { return Atom(int64(1000 + len(d.Nodes))) }
+	L := d.add(&Node{Kind: "list", Init: []Val{Atom(int64(r.Intn(6)))}})
+	frozenStruct := -1
+	for _, nd := range d.Nodes {
+		if nd.Kind == "struct" && nd.Host && nd.PreFrozen {
+			frozenStruct = nd.ID
+		}
+	}
+	switch r.Intn(16) {
+	case 0:
+		return d.add(&Node{Kind: "list", Init: []Val{Ref(L)}})
+	case 1:
+		return d.add(&Node{Kind: "tuple", Init: []Val{tag(), Ref(L)}})
+	case 2:
+		return d.add(&Node{Kind: "dict", Init: []Val{Atom(1), Ref(L)}})
+	case 3: // dict KEY: a bound method of L
+		b := d.add(&Node{Kind: "bound", Recv: L, Method: "append"})
+		return d.add(&Node{Kind: "dict", Init: []Val{Ref(b), Atom(1)}})
+	case 4: // dict KEY: a closure over L
+		f := d.add(&Node{Kind: "func", Captures: []int{L}})
+		return d.add(&Node{Kind: "dict", Init: []Val{Ref(f), Atom(1)}})
+	case 5: // dict KEY: a tuple that holds a bound method of L
+		b := d.add(&Node{Kind: "bound", Recv: L, Method: "extend"})
+		t := d.add(&Node{Kind: "tuple", Init: []Val{tag(), Ref(b)}})
+		return d.add(&Node{Kind: "dict", Init: []Val{Ref(t), Atom(1)}})
+	case 6: // set element: a bound method of L
+		b := d.add(&Node{Kind: "bound", Recv: L, Method: "pop"})
+		return d.add(&Node{Kind: "set", Init: []Val{Ref(b)}})
+	case 7:
+		return d.add(&Node{Kind: "struct", Init: []Val{tag(), Ref(L)}})
+	case 8, 9: // a struct sum one operand of which was frozen by the host beforehand
+		s := d.add(&Node{Kind: "struct", Init: []Val{tag(), Ref(L)}})
+		if frozenStruct < 0 {
+			return s
+		}
+		a, b := s, frozenStruct
+		if r.Bool() {
+			a, b = b, a
+		}
+		return d.add(&Node{Kind: "ssum", A: a, B: b})
+	case 10:
+		return d.add(&Node{Kind: "func", Defaults: []Val{Ref(L)}})
+	case 11:
+		return d.add(&Node{Kind: "func", Captures: []int{L}})
+	case 12:
+		return d.add(&Node{Kind: "bound", Recv: L, Method: "insert"})
+	case 13: // a chain
+		s := d.add(&Node{Kind: "struct", Init: []Val{tag(), Ref(L)}})
+		dd := d.add(&Node{Kind: "dict", Init: []Val{Atom(1), Ref(s)}})
+		t := d.add(&Node{Kind: "tuple", Init: []Val{tag(), Ref(dd)}})
+		return d.add(&Node{Kind: "list", Init: []Val{Ref(t)}})
+	case 14: // containers that were never written: {} and set() keep their zero tables
+		e := d.add(&Node{Kind: "dict"})
+		return d.add(&Node{Kind: "list", Init: []Val{Ref(e), Ref(L)}})
+	default:
+		e := d.add(&Node{Kind: "set"})
+		return d.add(&Node{Kind: "tuple", Init: []Val{tag(), Ref(e), Ref(L)}})
+	}
+}
+
+// Corner is a fixed world of corner values: containers that were never written,
+// large ones (hash tables with overflow buckets), and one of each kind.
+func Corner() *Desc {
+	d := &Desc{FailGlobal: -1, FailBuild: -1}
+	var big, bigd []Val
+	for i := 0; i < 40; i++ {
+		big = append(big, Atom(int64(200+i)))
+		bigd = append(bigd, Atom(int64(200+i)), Atom(int64(i%7)))
+	}
+	d.add(&Node{Kind: "dict"})
+	d.add(&Node{Kind: "set"})
+	d.add(&Node{Kind: "list"})
+	d.add(&Node{Kind: "dict", Init: bigd})
+	d.add(&Node{Kind: "set", Init: big})
+	l := d.add(&Node{Kind: "list", Init: big})
+	d.add(&Node{Kind: "tuple", Init: []Val{Atom(1006), Ref(0), Ref(l)}})
+	d.add(&Node{Kind: "struct", Init: []Val{Atom(1007), Ref(1), Ref(2)}})
+	d.add(&Node{Kind: "func", Defaults: []Val{Ref(3)}, Captures: []int{4}})
+	d.add(&Node{Kind: "bound", Recv: 0, Method: "setdefault"})
+	d.add(&Node{Kind: "bound", Recv: 1, Method: "add"})
+	for i := range d.Nodes {
+		d.Globals = append(d.Globals, i)
+	}
+	return d
 }
 
 // Gen generates a description for C04: 0-3 globals, 30% planted failures.
@@ -180,6 +306,20 @@ func GenWith(r *hx.Rand, shared bool) *Desc {
 			}
 		}
 		k := r.Intn(4)
+		// now and then a LARGE container (hash tables with overflow buckets, long
+		// slices), the interesting references sitting behind the padding
+		pad := 0
+		if r.Intn(12) == 0 {
+			pad = 9 + r.Intn(40)
+		}
+		for i := 0; i < pad; i++ {
+			switch nd.Kind {
+			case "list", "set":
+				nd.Init = append(nd.Init, Atom(int64(200+i)))
+			case "dict":
+				nd.Init = append(nd.Init, Atom(int64(200+i)), Atom(int64(i%7)))
+			}
+		}
 		switch nd.Kind {
 		case "list":
 			for i := 0; i < k; i++ {
@@ -299,7 +439,7 @@ func GenWith(r *hx.Rand, shared bool) *Desc {
 				tn.add("list", v, v)
 				d.Stmts = append(d.Stmts, Stmt{New: -1, Link: &Link{Node: tgt, V: v}})
 			case "dict":
-				key := Atom(int64(100 + len(tn.Elems)))
+				key := Atom(int64(10000 + len(tn.Elems)))
 				if v.IsRef() && d.hashable(v) && r.Intn(2) == 0 && !hasKey("dict", tn.Elems, v) {
 					key, v = v, Atom(int64(r.Intn(6))) // the new object as a KEY
 				}
@@ -322,6 +462,11 @@ func GenWith(r *hx.Rand, shared bool) *Desc {
 	ng := r.Intn(4)
 	for i := 0; i < ng; i++ {
 		d.Globals = append(d.Globals, r.Intn(n))
+	}
+	// most graphs also get a value that is reachable through one particular edge kind only
+	for k := r.Intn(3); k > 0; k-- {
+		d.Globals = append(d.Globals, d.motif(r))
+		ng++
 	}
 	// a struct sum with exactly one operand frozen beforehand is usually kept in a global
 	for _, nd := range d.Nodes {
